@@ -20,10 +20,17 @@ is at least as long as the kernel would read or write; if not the attempt is
 *recorded* in `overruns` and only the registered part is copied.  This
 monitor is the oracle of C10.
 
-File descriptors are real (`os.dup` of /dev/null), so `os.close` in ebpfcat
-works.  `mmap(fd, size)` of an mmapable array map returns a memoryview
+File descriptors are real (one memfd each), so `os.close` in ebpfcat works
+and numbers are recycled exactly as by the real kernel (lowest free number
+first).  Every use of a descriptor checks that the number still denotes the
+file it was handed out for: a descriptor the library closed gives EBADF, a
+number that was closed and handed out again denotes the *new* object (a stale
+number kept by the library then aliases another map, as it would in reality).
+A loaded program keeps the maps it referred to at PROG_LOAD, whatever happens
+to the numbers afterwards.  `mmap(fd, size)` of an mmapable array map returns a memoryview
 aliasing the map's storage: Python and the program in the VM share memory.
 """
+import collections
 import contextlib
 import ctypes
 import errno
@@ -80,6 +87,21 @@ class _FromBuffer:
         self.length = length
 
 
+class _BoundKernel:
+    """a loaded program's view of the kernel: the maps it referred to when it
+    was loaded stay bound to it, whoever owns the descriptor numbers now"""
+
+    def __init__(self, kernel, bound):
+        self.__dict__["_k"] = kernel
+        self.__dict__["maps"] = collections.ChainMap(bound, kernel.maps)
+
+    def __getattr__(self, name):
+        return getattr(self._k, name)
+
+    def __setattr__(self, name, value):
+        setattr(self._k, name, value)
+
+
 class SimKernel:
     def __init__(self, n_possible=1, n_online=None, cpu=0):
         self.kernel = bpfvm.Kernel()
@@ -97,6 +119,7 @@ class SimKernel:
         self.log_calls = True
         self._null = None
         self._owned = []
+        self._ident = {}                # fd -> identity of the file behind it
         self._cchar = self._make_cchar()
 
     # ------------------------------------------------------------ user memory
@@ -183,27 +206,68 @@ class SimKernel:
 
     # ------------------------------------------------------------ descriptors
     def _newfd(self):
-        if self._null is None:
-            self._null = os.open(os.devnull, os.O_RDWR)
-        fd = os.dup(self._null)
-        self._owned.append(fd)
+        """a fresh real descriptor (the lowest free number, like the kernel's)
+        with an identity of its own"""
+        fd = None
+        if hasattr(os, "memfd_create"):
+            try:
+                fd = os.memfd_create("simbpf")
+            except OSError:
+                fd = None
+        if fd is None:
+            if self._null is None:
+                self._null = os.open(os.devnull, os.O_RDWR)
+            fd = os.dup(self._null)
+        self._forget(fd)                # a recycled number: the old object
+        self._owned.append(fd)          # is not reachable through it any more
+        self._ident[fd] = self._identity(fd)
         return fd
+
+    @staticmethod
+    def _identity(fd):
+        st = os.fstat(fd)
+        return st.st_dev, st.st_ino
+
+    def _forget(self, fd):
+        self.fds.pop(fd, None)
+        self._ident.pop(fd, None)
+        self.kernel.maps.pop(fd, None)
+        self.kernel.progs.pop(fd, None)
+
+    def _ent(self, fd):
+        """what descriptor fd denotes, or None: never handed out, or closed
+        since (even if the number is open again for something else)"""
+        ent = self.fds.get(fd)
+        if ent is None:
+            return None
+        try:
+            live = self._identity(fd) == self._ident.get(fd)
+        except OSError:
+            live = False
+        if not live:
+            self._forget(fd)
+            return None
+        return ent
+
+    def is_open(self, fd):
+        return self._ent(fd) is not None
 
     def close_all(self):
         """close every descriptor this instance handed out (and still owns)"""
         for fd in self._owned:
-            if fd in self.fds or True:
-                try:
+            try:
+                if self._identity(fd) == self._ident.get(fd):
                     os.close(fd)
-                except OSError:
-                    pass
+            except OSError:
+                pass
+            self._ident.pop(fd, None)
         self._owned = []
         if self._null is not None:
             os.close(self._null)
             self._null = None
 
     def _map(self, fd):
-        ent = self.fds.get(fd)
+        ent = self._ent(fd)
         if ent is None:
             raise OSError(errno.EBADF, "bad file descriptor")
         if ent[0] != "map":
@@ -326,7 +390,7 @@ class SimKernel:
             if i >= m.max_entries:
                 raise OSError(errno.E2BIG, "index out of range")
             pfd = struct.unpack("<I", value[:4])[0]
-            ent = self.fds.get(pfd)
+            ent = self._ent(pfd)
             if ent is None:
                 raise OSError(errno.EBADF, "bad program descriptor")
             if ent[0] != "prog":
@@ -419,11 +483,13 @@ class SimKernel:
             insns = bpfvm.decode(code)
         except bpfvm.Trap as e:
             raise OSError(errno.EINVAL, str(e))
+        bound = {}
         for ins in insns:
             if ins is not None and ins[0] == 0x18 and ins[2] == 1:
-                ent = self.fds.get(ins[4] & 0xffffffff)
+                ent = self._ent(ins[4] & 0xffffffff)
                 if ent is None or ent[0] != "map":
                     raise OSError(errno.EBADF, "program refers to a bad map fd")
+                bound[ins[4] & 0xffffffff] = ent[1]
         if log_level:
             if log_buf == 0 or log_size < 128:
                 raise OSError(errno.EINVAL, "log buffer")
@@ -431,7 +497,7 @@ class SimKernel:
                         b"simulated: processed %d insns\n\0" % cnt,
                         need=min(log_size, 64))
         fd = self._newfd()
-        self.fds[fd] = ("prog", insns)
+        self.fds[fd] = ("prog", insns, bound)
         self.kernel.progs[fd] = insns
         self.prog_ids[fd] = 1000 + len(self.prog_ids)
         return fd
@@ -439,7 +505,7 @@ class SimKernel:
     def _cmd6(self, cmd, f, attr):
         paddr, fd, fflags = f
         path = self._cstring(cmd, "pathname", paddr)
-        ent = self.fds.get(fd)
+        ent = self._ent(fd)
         if ent is None:
             raise OSError(errno.EBADF, "bad file descriptor")
         if path in self.pins:
@@ -467,14 +533,19 @@ class SimKernel:
     def run_prog(self, fd, packet, cpu=None, repeat=1):
         """run a loaded program on `packet` (a bytearray, modified in place)
         -> (retval, vm); raises SimTrap"""
-        ent = self.fds.get(fd)
+        ent = self._ent(fd)
         if ent is None:
             raise OSError(errno.EBADF, "bad file descriptor")
         if ent[0] != "prog":
             raise OSError(errno.EINVAL, "not a program")
         vm = None
+        kernel = self.kernel
+        bound = ent[2] if len(ent) > 2 else None
+        if bound and any(kernel.maps.get(k) is not m
+                         for k, m in bound.items()):
+            kernel = _BoundKernel(kernel, bound)
         for _ in range(max(1, repeat)):
-            vm = bpfvm.VM(self.kernel, ent[1], packet,
+            vm = bpfvm.VM(kernel, ent[1], packet,
                           self.cpu if cpu is None else cpu)
             try:
                 vm.run()
@@ -484,7 +555,7 @@ class SimKernel:
 
     def _cmd10(self, cmd, f, attr):
         fd, _, size_in, size_out, din, dout, repeat, _ = f
-        ent = self.fds.get(fd)
+        ent = self._ent(fd)
         if ent is None:
             raise OSError(errno.EBADF, "bad file descriptor")
         if ent[0] != "prog":
@@ -950,6 +1021,44 @@ def selftest(real=True):
         del small
     finally:
         sk2.close_all()
+    # descriptor numbers: closed -> EBADF, recycled -> the new object, a
+    # loaded program keeps its maps
+    sk3 = SimKernel()
+    try:
+        a = sk3.u_create(1, 4, 8, 4)
+        h2 = sk3.u_create(1, 5, 13, 1)
+        prog = sk3.u_prog_load(_selftest_program(sk3.u_create(2, 4, 8, 1),
+                                                 h2))
+        sk3.u_update(a, bytes(4), b"\x01" * 8)
+        os.close(a)
+        try:
+            sk3.u_lookup(a, bytes(4), 8)
+            raise AssertionError("lookup through a closed descriptor worked")
+        except OSError as e:
+            if e.errno != errno.EBADF:
+                raise AssertionError(f"closed descriptor: {e}")
+        os.close(h2)
+        b2 = sk3.u_create(1, 4, 16, 4)
+        b3 = sk3.u_create(2, 4, 8, 1)
+        if (b2, b3) != (a, h2):
+            raise AssertionError(f"descriptor numbers not recycled lowest "
+                                 f"first: {(a, h2)} then {(b2, b3)}")
+        try:
+            sk3.u_lookup(b2, bytes(4), 16)
+            raise AssertionError("recycled number shows the old map")
+        except OSError as e:
+            if e.errno != errno.ENOENT:
+                raise AssertionError(f"recycled descriptor: {e}")
+        pkt = bytes(14) + b"\x01" + b"abcde" + bytes(1) + bytes(range(13)) \
+            + bytes(6)
+        if sk3.u_test_run(prog, pkt)[0] != 1 or \
+                sk3.u_test_run(prog, pkt)[0] != 2:
+            raise AssertionError("a loaded program lost its hash map when "
+                                 "the descriptor number was recycled")
+        if sk3.overruns or sk3.faults:
+            raise AssertionError(f"descriptor script: {sk3.overruns[:3]}")
+    finally:
+        sk3.close_all()
     if not (real and kern.available()):
         return dict(steps=len(slog), kernel=False)
     rd = _RealDriver()
